@@ -14,6 +14,7 @@ fn table() -> Vec<(&'static str, RunFn, ReplayFn)> {
         ("C02", props::c02::run as RunFn, props::c02::replay as ReplayFn),
         ("C03", props::c03::run as RunFn, props::c03::replay as ReplayFn),
         ("C05", props::c05::run as RunFn, props::c05::replay as ReplayFn),
+        ("C06", props::c06::run as RunFn, props::c06::replay as ReplayFn),
         ("C07", props::c07::run as RunFn, props::c07::replay as ReplayFn),
         ("C09", props::c09::run as RunFn, props::c09::replay as ReplayFn),
         ("C10", props::c10::run as RunFn, props::c10::replay as ReplayFn),
